@@ -80,7 +80,13 @@ func (g *gen) write(name, body string) {
 }
 
 // Run regenerates every Extracted/*.v and returns the facts for the harness.
-func Run(repo, out string) (Facts, []string) {
+func Run(repo, out string, forID string) (Facts, []string) {
+	if abs, err := filepath.Abs(out); err == nil {
+		out = abs
+	}
+	if abs, err := filepath.Abs(repo); err == nil {
+		repo = abs
+	}
 	g := &gen{repo: repo, out: out, facts: Facts{}, fset: token.NewFileSet()}
 	os.MkdirAll(out, 0o755)
 	g.cli()
@@ -88,6 +94,7 @@ func Run(repo, out string) (Facts, []string) {
 	g.templates()
 	g.report()
 	g.pipeline()
+	g.shared(forID == "C06" || forID == "all")
 	keys := make([]string, 0, len(g.facts))
 	for k := range g.facts {
 		keys = append(keys, k)
